@@ -49,6 +49,12 @@ type Call struct {
 	LoadBytes []byte            `json:"load_bytes,omitempty"`
 	// Carry (C06 pieces): input name <- output name of call Ref
 	Carry map[string]string `json:"carry,omitempty"`
+	// Flavour: how the caller builds the tensor object for an input (same for the reference): "" plain,
+	// "lazyT" a lazily transposed tensor (x.T() without Transpose()), "view" a slice of a larger tensor.
+	Flavour map[string]string `json:"flavour,omitempty"`
+	// Scribble (introspect): after reading the accessors' answers the caller overwrites what it was handed
+	// (maps, slices, names): they are the caller's copies and the Model must not care.
+	Scribble bool `json:"scribble,omitempty"`
 	// RetryOf (C06 pieces): 1 + index of an earlier, aborted attempt of this same piece whose very tensor
 	// objects are passed again (0 = not a retry).
 	RetryOf int `json:"retry_of,omitempty"`
